@@ -169,6 +169,18 @@ CLAIMED['C05'] = dict(
          'are per complete DIMSE message.',
     design='5/C05')
 
+CLAIMED['C19'] = dict(
+    text='C-GET user (qr_get_scu) and C-MOVE provider (qr_move_scp, _send_response) run symbolically on a real Association: '
+         'number of sub-operations 0..3, per-sub-operation outcome, interleaving of pending C-GET responses with C-STORE '
+         'requests, arrival contexts, message ids, handler status / EventHandlingError position, final status, destination '
+         'known/unknown are symbolic. Asserted: one C-STORE-RSP per C-STORE-RQ on its arrival context with the right ids, '
+         'instances handed over once and in order, iteration ends at the final C-GET-RSP; each instance stored once, in '
+         'order, at the designated destination; after k sub-operations remaining = total-k and k performed; exactly one '
+         'final response, also for total = 0 (and then no sub-association).',
+    note=TRUSTED + 'Scripted incoming messages; recording stubs for the application entity and the sub-association; at most 3 '
+         'sub-operations.',
+    design='5/C19')
+
 NOT_YET = 'check not built yet in this revision (see DESIGN.md section 5 for the plan)'
 
 NOT_APPLICABLE = {}
